@@ -185,12 +185,11 @@ class World(object):
         s.yield_point("os:" + op, [self.canon(p) for p in paths])
 
     # -- scripted compiler -------------------------------------------------------
-    def run_compiler(self, command, kw):
+    def start_compiler(self, command):
+        """fork+exec of the compiler: a child actor that runs concurrently
+        with its parent until the parent waits for it."""
         s = self.sched
-        me = s.current() if s else None
-        if me is None:
-            kw.pop("shell", None)
-            return subprocess.check_output(command, **kw)
+        me = s.current()
         idx = self.cc_count
         self.cc_count += 1
         plans = self.cfg.get("cc_plans", [])
@@ -199,12 +198,27 @@ class World(object):
                         start_at=s.step, parent=me, kind="cc")
         child.data["owner"] = me.name
         me.data["phase"] = "cc_started"
+        return child
+
+    def wait_compiler(self, child):
+        s = self.sched
+        me = s.current()
         s.wait_child(child)
-        rc, out = child.result if child.result is not None else (1, b"compiler crashed: %r" % (child.exc,))
         if child.exc is not None:
             raise baton.HarnessError("scripted compiler raised: %r" % (child.exc,))
+        rc, out = child.result if child.result is not None else (1, b"")
         if rc != 0:
             self.cc_failed_for.add(me.name)
+        return rc, out
+
+    def run_compiler(self, command, kw):
+        s = self.sched
+        me = s.current() if s else None
+        if me is None:
+            kw.pop("shell", None)
+            return subprocess.check_output(command, **kw)
+        rc, out = self.wait_compiler(self.start_compiler(command))
+        if rc != 0:
             raise subprocess.CalledProcessError(rc, command, output=out)
         return out
 
